@@ -4,15 +4,16 @@
 #  1. the demonstration passes WITHOUT the change, 2. the patch applies and the tree builds,
 #  3. the demonstration FAILS with the change, 4. the repository's own tests of ./x/... ./app/... pass
 #  with it and, with "full", the integration suite too.
+# Env: WTPREFIX (default /tmp/wt-), SEEDROOT (default /tmp/seeded), INTEG_TIMEOUT (default 25m).
 # Writes /tmp/seeded/<PROP>/<variant>/confirm.log (last line: CONFIRMED or NOT-CONFIRMED <why>).
 set -u
 P=$1; V=$2; FULL=${3:-}
-WT=/tmp/wt-$P; D=/tmp/seeded/$P/$V
+WT=${WTPREFIX:-/tmp/wt-}$P; D=${SEEDROOT:-/tmp/seeded}/$P/$V; TMO=${INTEG_TIMEOUT:-25m}
 export GOFLAGS=-mod=mod GOPROXY=off
 LOG=$D/confirm.log; : > $LOG
 cd $WT || exit 2
 git checkout -q -- . ; git clean -fdq -e tests/e2e/testdata
-pkg=$(jq -r .demo_pkg_dir $D/meta.json); pkg=${pkg#/tmp/wt-$P/}; pkg=${pkg#./}; pkg=${pkg%/}
+pkg=$(jq -r .demo_pkg_dir $D/meta.json); pkg=${pkg#$WT/}; pkg=${pkg#./}; pkg=${pkg%/}
 plain=$(grep -oE '^func Test[A-Za-z0-9_]+\(' $D/demo_test.go | sed -E 's/^func (Test[A-Za-z0-9_]+)\(/\1/' | paste -sd'|')
 suite=$(grep -oE '^func \([a-zA-Z_]+ \*?[A-Za-z]+\) Test[A-Za-z0-9_]+\(' $D/demo_test.go | sed -E 's/.*\) (Test[A-Za-z0-9_]+)\(/\1/' | paste -sd'|')
 if [ -n "$plain" ]; then cmd="go test -vet=off -count=1 -run '^($plain)\$' ./$pkg/"; else cmd="go test -vet=off -count=1 ./$pkg/ -run 'TestCCVTestSuite' -testify.m '^($suite)\$'"; fi
@@ -27,7 +28,7 @@ go test -vet=off -count=1 ./x/... ./app/... 2>&1 | grep -E "^(FAIL|ok|--- FAIL|p
 echo "unit tests with patch: $(grep -c '^ok' $D/unit_with.log) packages ok, $ru failures" >> $LOG
 ri=0
 if [ "$FULL" = full ]; then
-  go test -vet=off -count=1 -timeout 25m ./tests/integration/... 2>&1 | grep -E "^(FAIL|ok|--- FAIL|panic:)" > $D/integration_with.log
+  go test -vet=off -count=1 -timeout $TMO ./tests/integration/... 2>&1 | grep -E "^(FAIL|ok|--- FAIL|panic:)" > $D/integration_with.log
   ri=$(grep -c -E "^(FAIL|--- FAIL|panic:)" $D/integration_with.log); echo "integration suite with patch: $(cat $D/integration_with.log | tr '\n' ' ')" >> $LOG
 fi
 git checkout -q -- . ; git clean -fdq -e tests/e2e/testdata
